@@ -139,8 +139,10 @@ def make_environ(req, streams):
         del env['PATH_INFO']
     if req.get('ctype'):
         env['CONTENT_TYPE'] = req['ctype']
-    if req.get('chunked'):
-        env['HTTP_TRANSFER_ENCODING'] = 'chunked'
+    if req.get('chunked') or req.get('te'):
+        env['HTTP_TRANSFER_ENCODING'] = req.get('te') or 'chunked'
+        if req.get('cl') is not None:
+            env['CONTENT_LENGTH'] = str(req['cl'])
     elif body or req.get('cl') is not None:
         env['CONTENT_LENGTH'] = str(req.get('cl', len(body)))
     if req.get('cookie'):
@@ -481,7 +483,15 @@ BODY_OUTCOME = {
     'oversize': ('shared', 1, True), 'bigfield': ('shared', 1, True),
     'urlenc_big': ('shared', 1, False), 'json_big': ('shared', 1, False),      # _get_body_string: no except block around
     'badchunk': ('shared', 2, True), 'badjson': ('shared', 2, True), 'noname': ('shared', 2, True),
+    # malformed framing headers: a Content-Length int() refuses is a ValueError where the handler first touches the
+    # body (today a 500: finding *-content-length-not-int of C05/C12); one int() accepts in an unusual spelling, an
+    # empty, negative or huge one, and unusual Transfer-Encoding values are served
+    'cl_bad': ('crash',), 'cl_odd': ('ok',), 'te_odd': ('ok',), 'te_cl_bad': ('crash',),
 }
+CL_BAD = ['12, 12', '1e3', '12abc', '0x10', '12.0', 'twelve', '1 2', '--5', '12,', '\xb2']
+CL_ODD = [('', 0), ('-5', 0), ('-0', 0), ('99999999999999999999', None), (' 12 ', 12), ('+12', 12), ('1_2', 12), ('012', 12),
+          ('\t7\n', 7), ('0', 0)]
+TE_ODD = ['chunked, chunked', 'gzip, chunked', 'Chunked', 'CHUNKED', 'chunked;q=1', 'identity, chunked']
 
 
 def model_case(req):
@@ -509,6 +519,13 @@ def model_case(req):
             if kind == 'ok':
                 res = dict(k='ret', o=dict(k='str', s=req['expect']))
                 replaced = reached
+            elif kind == 'crash':
+                # int(environ['CONTENT_LENGTH']) in BodyMixin.content_length: an ordinary exception in the handler
+                try:
+                    int(req['cl'])
+                    raise AssertionError('Content-Length %r is an integer' % req['cl'])
+                except ValueError as e:
+                    res = dict(k='raise_exc', cls='ValueError', msg=e.args[0])
             else:
                 idx, inside = outcome[1], outcome[2]
                 _, code, text = SHARED[idx]
@@ -712,6 +729,21 @@ def body_request(rng, rid, cls, secret=None):
     elif cls == 'urlenc_big':
         how = 'forms'
         req.update(body=list(('a=%s&b=' % secret).encode() + b'x' * MEMFILE), ctype='application/x-www-form-urlencoded')
+    elif cls == 'cl_bad':
+        req.update(body=list(b'hello world!'), cl=rng.choice(CL_BAD))
+    elif cls == 'te_cl_bad':
+        # content_length is evaluated although the body is chunked
+        req.update(body=list(b'3\r\nabc\r\n0\r\n\r\n'), te=rng.choice(['chunked'] + TE_ODD), cl=rng.choice(CL_BAD))
+    elif cls == 'cl_odd':
+        data = [rng.randrange(97, 123) for _ in range(12)]
+        cl, n = rng.choice(CL_ODD)
+        req.update(body=data, cl=cl, expect=str(len(data) if n is None else n))
+    elif cls == 'te_odd':
+        data = [rng.randrange(97, 123) for _ in range(rng.randrange(1, 30))]
+        req.update(body=list(b'%x\r\n' % len(data) + bytes(data) + b'\r\n0\r\n\r\n'), te=rng.choice(TE_ODD),
+                   expect=str(len(data)))
+        if rng.random() < 0.5:
+            req['cl'] = rng.choice(['5', '', '0'])         # a Content-Length next to it does not count
     else:
         raise ValueError(cls)
     if rng.random() < 0.4:
@@ -921,6 +953,22 @@ def corpus():
                            reqs=[_req(0, dict(cookie, method=prev_m)), nopath(1, m, json=True), _req(2, plain(hello))]))
     cs.append(dict(kind='history', peek=False, eh=[], reqs=[nopath(0, 'GET'), nopath(1, 'HEAD'), _req(2, cookie), dict(bad, id=3),
                                                             nopath(4, 'GET'), dict(over[0], id=5), nopath(6, 'HEAD')]))
+    # malformed framing headers right after a request that set cookies / headers / a status: whatever the answer is
+    # (today a 500 for a Content-Length int() refuses), it is the fresh application's and carries nothing of the
+    # earlier request (seeded change: a 400 raised inside request.__init__, i.e. before response.__init__())
+    import random
+    for k, cl in enumerate(CL_BAD):
+        for js in (False, True):
+            b = body_request(random.Random('clbad'), 1, 'cl_bad')
+            b.update(cl=cl)
+            b.pop('short', None)
+            b['case']['json'] = js
+            cs.append(dict(kind='history', peek=(k % 2 == 0), eh=[], reqs=[_req(0, cookie, qs='secret=1'), b, _req(2, plain(hello))]))
+    for cls in ('cl_odd', 'te_odd', 'te_cl_bad'):
+        for k in range(6):
+            b = body_request(random.Random('%s%d' % (cls, k)), 1, cls)
+            cs.append(dict(kind='history', peek=(k % 2 == 0), eh=[], reqs=[_req(0, cookie), b, _req(2, st_case(520, 'raise')),
+                                                                         dict(b, id=3)]))
     cs.append(dict(kind='rule', reset=False, ids=[1, 2, 3]))
     cs.append(dict(kind='rule', reset=True, ids=[1, 2, 3]))
     cs.append(dict(kind='history', peek=True, eh=[], reqs=[over[0], _req(1, cookie), dict(retention_case('badchunk', 3)['reqs'][2]),
